@@ -5,6 +5,7 @@ import (
 	"fmt"
 	"os"
 	"os/exec"
+	"path/filepath"
 	"sort"
 	"strings"
 	"sync"
@@ -25,10 +26,19 @@ type childResult struct {
 }
 
 // obls analyses one variant in this process and prints a childResult.
-func obls(mutName, goarch string) int {
+func obls(mutName, goarch, patch string) int {
 	res := childResult{Mutant: mutName}
 	var overlay map[string][]byte
-	if mutName != "" {
+	if patch != "" {
+		abs, _ := filepath.Abs(patch)
+		m := mutant.FromPatch(abs)
+		var err error
+		overlay, err = m.Overlay(load.RepoDir())
+		if err != nil {
+			res.ApplyError = err.Error()
+			return emit(res)
+		}
+	} else if mutName != "" {
 		m, err := mutant.Find(verifDir(), mutName)
 		if err != nil {
 			res.ApplyError = err.Error()
@@ -109,12 +119,25 @@ func matchExpect(expect []string, id string) bool {
 // under analysis, one child process each, and reports whether the obligations
 // named by the edit turned into violations that the unchanged tree does not have.
 func runMutants(prop string, baseBad map[string]bool, par int) []mutantOutcome {
+	return runMutantsFiltered(prop, baseBad, par, "")
+}
+
+func runMutantsFiltered(prop string, baseBad map[string]bool, par int, only string) []mutantOutcome {
 	all, err := mutant.LoadAll(verifDir())
 	if err != nil {
 		return []mutantOutcome{{Name: "(loading mutants)", Status: "not-applicable", Note: err.Error()}}
 	}
 	var sel []*mutant.Mutant
 	for _, m := range all {
+		if only != "" && !strings.Contains(m.Name, only) {
+			continue
+		}
+		if m.Benign {
+			if prop == "" {
+				sel = append(sel, m)
+			}
+			continue
+		}
 		if prop == "" || m.Serves(prop) {
 			sel = append(sel, m)
 		}
@@ -155,9 +178,19 @@ func runMutants(prop string, baseBad map[string]bool, par int) []mutantOutcome {
 						hit = true
 					}
 				}
-				if hit {
+				switch {
+				case m.Benign && len(o.Reported) == 0:
+					o.Status = "silent"
+				case m.Benign:
+					o.Status = "FALSE-ALARM"
+					for _, ob := range r.Obligations {
+						if !baseBad[ob.ID()] {
+							o.Note += ob.ID() + ": " + ob.Detail + " | "
+						}
+					}
+				case hit:
 					o.Status = "detected"
-				} else {
+				default:
 					o.Status = "missed"
 				}
 			}
@@ -179,6 +212,7 @@ func hasProp(ps []string, p string) bool {
 
 // selftest is the developer-facing both-ways test: silent on the tree, firing on every seeded edit.
 func selftest(prop string, par int) int {
+	only := os.Getenv("SEMA_ONLY") // substring filter on edit names, for development
 	base := runChild("")
 	if base.LoadError != "" {
 		fmt.Println("cannot analyse the tree:", base.LoadError)
@@ -189,18 +223,18 @@ func selftest(prop string, par int) int {
 		baseBad[o.ID()] = true
 	}
 	fmt.Printf("unchanged tree: %d obligations, %d not discharged (known findings included)\n", base.Total, len(base.Obligations))
-	outs := runMutants(prop, baseBad, par)
+	outs := runMutantsFiltered(prop, baseBad, par, only)
 	miss := 0
 	for _, o := range outs {
 		fmt.Printf("%-44s %-22s %s\n", o.Name, o.Status, strings.Join(o.Reported, " "))
 		if o.Note != "" {
 			fmt.Printf("%-44s   note: %s\n", "", o.Note)
 		}
-		if o.Status == "missed" {
+		if o.Status == "missed" || o.Status == "FALSE-ALARM" || (strings.HasPrefix(o.Name, "b-") && o.Status == "not-applicable") {
 			miss++
 		}
 	}
-	fmt.Printf("%d seeded edits, %d missed\n", len(outs), miss)
+	fmt.Printf("%d seeded edits, %d missed / false alarms / broken benign edits\n", len(outs), miss)
 	if miss > 0 {
 		return 1
 	}
